@@ -1,6 +1,5 @@
 //! Runs request lines of a byte-level harness domain (the same runners and property oracles as the
-//! native harness: `harness/src/d_buffer.rs`, `d_packer.rs`, `d_huffman.rs`, `d_packet6.rs`, `d_packet7.rs`, `d_snap.rs`,
-//! `d_teehist.rs`, `d_demo.rs`, `d_datafile.rs`) under
+//! native harness: `harness/src/d_*.rs` of every domain except `map`) under
 //! Miri and compares every output line with the line the Lean model produced.
 //! Usage: tw-harness-miri <domain> <requests> <model-outputs>
 #![allow(dead_code)]
@@ -10,8 +9,26 @@ mod d_buffer;
 mod d_huffman;
 #[path = "../../harness/src/d_packer.rs"]
 mod d_packer;
+#[path = "../../harness/src/d_browse.rs"]
+mod d_browse;
+#[path = "../../harness/src/d_conn6.rs"]
+mod d_conn6;
+#[path = "../../harness/src/d_conn7.rs"]
+mod d_conn7;
 #[path = "../../harness/src/d_datafile.rs"]
 mod d_datafile;
+#[path = "../../harness/src/d_demohl.rs"]
+mod d_demohl;
+#[path = "../../harness/src/d_gamenet.rs"]
+mod d_gamenet;
+#[path = "../../harness/src/d_net.rs"]
+mod d_net;
+#[path = "../../harness/src/d_recv.rs"]
+mod d_recv;
+#[path = "../../harness/src/d_snapmgr.rs"]
+mod d_snapmgr;
+#[path = "../../harness/src/d_snapmgrc.rs"]
+mod d_snapmgrc;
 #[path = "../../harness/src/d_demo.rs"]
 mod d_demo;
 #[path = "../../harness/src/d_packet6.rs"]
@@ -47,6 +64,15 @@ fn main() {
         "teehist" => d_teehist::domain(),
         "demo" => d_demo::domain(),
         "datafile" => d_datafile::domain(),
+        "browse" => d_browse::domain(),
+        "gamenet" => d_gamenet::domain(),
+        "recv" => d_recv::domain(),
+        "snapmgr" => d_snapmgr::domain(),
+        "snapmgrc" => d_snapmgrc::domain(),
+        "conn6" => d_conn6::domain(),
+        "conn7" => d_conn7::domain(),
+        "net" => d_net::domain(),
+        "demohl" => d_demohl::domain(),
         x => panic!("unknown domain {}", x),
     };
     let req = std::io::BufReader::new(std::fs::File::open(&args[2]).expect("requests"));
